@@ -20,6 +20,9 @@ import (
 
 const verifOn = true
 
+// verifMaxLines bounds the number of lines one recorder keeps.
+const verifMaxLines = 200000
+
 // VerifRecorder collects the events of one scheduler.
 // Pass it in Config.Verif.
 type VerifRecorder struct {
@@ -75,7 +78,11 @@ func (r *VerifRecorder) add(format string, args ...interface{}) {
 		return
 	}
 	r.mu.Lock()
-	r.Lines = append(r.Lines, fmt.Sprintf(format, args...))
+	// Bound the recording: a scenario that never terminates (e.g. a loop
+	// ticking forever) must not exhaust memory.
+	if len(r.Lines) < verifMaxLines {
+		r.Lines = append(r.Lines, fmt.Sprintf(format, args...))
+	}
 	r.mu.Unlock()
 }
 
